@@ -120,11 +120,13 @@ class F64:
 
 
 class SymStr:
-    """string of known length whose characters are z3 Ints (code points)"""
-    __slots__ = ('chars',)
+    """string of known length whose characters are z3 Ints (code points).  `wide`: the characters may be non-ASCII, so byte
+    lengths and byte offsets are computed from the UTF-8 width of each character instead of being the character count"""
+    __slots__ = ('chars', 'wide')
 
-    def __init__(self, chars):
+    def __init__(self, chars, wide=False):
         self.chars = list(chars)
+        self.wide = wide
 
     def __repr__(self):
         return 'SymStr(%d)' % len(self.chars)
